@@ -67,6 +67,19 @@ Rd(c, loc) == [c EXCEPT !.es[1].rd = @ \cup {loc}]
 Wr(c, loc) == [c EXCEPT !.es[1].wr = @ \cup {loc}]
 Io(c) == [c EXCEPT !.es[1].io = TRUE]
 
+\* An exit (system call 0, stop) reached while operand groups are open ends the run before their siblings are compared, so the
+\* comparison is made here: the run is defined only if no sibling already evaluated has written or done I/O and every sibling still to
+\* be evaluated is free of calls (a compiler that evaluates the siblings in another order must reach the same exit in the same way).
+RECURSIVE CallFree(_)
+CallFree(e) == CASE e.k \in {"num", "str", "var"} -> TRUE
+                 [] e.k \in {"un", "idx"} -> CallFree(e.e)
+                 [] e.k = "bin" -> CallFree(e.l) /\ CallFree(e.r)
+                 [] OTHER -> FALSE
+ExitOrderFree(c) == \A i \in 1..Len(c.k) : c.k[i].k = "grp" =>
+                      /\ \A j \in 1..Len(c.k[i].effs) : ~c.k[i].effs[j].io /\ c.k[i].effs[j].wr = {}
+                      /\ \A j \in 1..Len(c.k[i].todo) : CallFree(c.k[i].todo[j])
+ExitWith(c, v) == IF ExitOrderFree(c) THEN [c EXCEPT !.st = "exit", !.xv = v] ELSE Undef(c, "order")
+
 StepP(P, cc) ==
   LET
   ideal == P.mode = "ideal"
@@ -88,7 +101,7 @@ StepP(P, cc) ==
                         [c EXCEPT !.ctl = IntV(IF lt # neg THEN 1 ELSE 0)]
       [] kind = "sys" ->
            IF \E i \in 1..Len(done) : done[i].kind # "int" THEN Undef(c, IF \E i \in 1..Len(done) : done[i].kind = "none" THEN "noreturn" ELSE "type") ELSE
-           IF meta.id = 0 THEN (IF Len(done) # 1 THEN Undef(c, "arity") ELSE [c EXCEPT !.st = "exit", !.xv = done[1].v])
+           IF meta.id = 0 THEN (IF Len(done) # 1 THEN Undef(c, "arity") ELSE ExitWith(c, done[1].v))
            ELSE IF meta.id = 1 THEN (IF Len(done) # 2 THEN Undef(c, "arity")
                                      ELSE [Io(c) EXCEPT !.out = Append(c.out, <<Chan(done[2].v), done[1].v % 256>>), !.ctl = NoneV])
            ELSE IF meta.id = 2 THEN (IF Len(done) # 1 THEN Undef(c, "arity")
@@ -144,7 +157,7 @@ StepP(P, cc) ==
       [] e.k = "sys" -> Group(c, "sys", [id |-> e.id], e.args)
   StepStmt(c, s) ==
     CASE s.k = "skip" -> [c EXCEPT !.ctl = NoneV]
-      [] s.k = "stop" -> [c EXCEPT !.st = "exit", !.xv = 0]
+      [] s.k = "stop" -> ExitWith(c, 0)
       [] s.k = "ass" -> IF s.t.k = "var" THEN [c EXCEPT !.ctl = Ex(s.e), !.k = Push([k |-> "ass", n |-> s.t.n], c.k)]
                         ELSE Group(c, "asgn", [a |-> s.t.a], <<s.t.e, s.e>>)
       [] s.k = "seq" -> IF s.ss = <<>> THEN [c EXCEPT !.ctl = NoneV]
